@@ -28,7 +28,7 @@ MANIFEST = {
 RULE = ("Hypothesis-generated cases, one clause per relation and function. Directions: "
         "uniform on the sphere, both polar caps (90 - 10^u deg, u in [-9, 0.7], and exactly "
         "+-90), the 85 deg branch point of the code +- {0, 1e-12 .. 0.1}, equator, 0/360 "
-        "seam. Epoch pairs: start in J2000 +- {5, 10, 20, 40} centuries (+-5 for the "
+        "seam (route clause: also the ecliptic polar caps). Epoch pairs: start in J2000 +- {5, 10, 20, 40} centuries (+-5 for the "
         "clauses the text limits: ecliptical there-and-back, route, orbital elements; "
         "1800-2100 for Newcomb), end uniform in the same span, equal to the start (zero "
         "interval), start +- 10^u years (tiny interval), or J2000. Pairs/triples of stars: "
@@ -562,6 +562,18 @@ WIDE = [500.0, 1000.0, 2000.0, 4000.0]
 NARROW = [500.0]
 
 
+def ecliptic_caps():
+    """Equatorial (ra, dec) of directions inside the ecliptic polar caps (the ecliptical
+    leg of the route clause then starts within 5 deg of an ecliptic pole)."""
+    return caps().map(lambda p: rot.lonlat(rot.ecl2equ(rot.vec(p[0], p[1]), 23.44)))
+
+
+def route_cases():
+    return st.builds(lambda p, yy: {"ra": p[0], "dec": p[1], "y0": yy[0], "y1": yy[1]},
+                     st.one_of(directions(), ecliptic_caps()),
+                     year_pairs(NARROW))
+
+
 def identity_cases():
     return st.builds(lambda p, y: {"ra": p[0], "dec": p[1], "y0": y},
                      directions(), st.sampled_from(WIDE).flatmap(start_years))
@@ -654,7 +666,7 @@ STRATS = {
     "identity_eq": identity_cases, "identity_ecl": identity_cases,
     "roundtrip_eq": lambda: roundtrip_cases(WIDE), "roundtrip_ecl": lambda: roundtrip_cases(NARROW),
     "rigid_eq": rigid_cases, "rigid_ecl": rigid_cases,
-    "route": lambda: roundtrip_cases(NARROW), "newcomb": newcomb_cases,
+    "route": route_cases, "newcomb": newcomb_cases,
     "pm_eq": lambda: pm_cases("eq"), "pm_ecl": lambda: pm_cases("ecl"),
     "pm_newcomb": lambda: pm_cases("newcomb"),
     "pm_space": pm_space_cases, "pm_convert": pm_convert_cases,
@@ -681,7 +693,7 @@ def tasks(tier, seed):
                 out.append(Task("t_given", clause=clause, shard=sh, n=n))
         else:
             for sh in range(shards * 4):
-                out.append(Task("t_given", clause=clause, shard=sh, n=n * 6))
+                out.append(Task("t_given", clause=clause, shard=sh, n=n * 4))
     return out
 
 
